@@ -347,7 +347,39 @@ func (r *Runner) Layer(layer string, n int, f func(c *Case)) {
 		b = append(b, '\n')
 		_, _ = r.results.Write(b)
 		fmt.Fprintf(r.journal, "end %s\n", id)
+		if !r.replayOn && rssMB() > r.maxRSS() {
+			// Under -race the resident set of a long-lived child only ever grows (shadow memory of freed heap
+			// is not returned), and 16 such children can exhaust the machine. The child leaves between two
+			// cases; the driver starts a fresh one that resumes after this case (not a fatal event).
+			fmt.Fprintf(r.journal, "recycle %s\n", id)
+			r.journal.Close()
+			r.results.Close()
+			os.Exit(75)
+		}
 	}
+}
+
+func (r *Runner) maxRSS() int {
+	if s := os.Getenv("VERIF_MAX_RSS_MB"); s != "" {
+		if v, err := strconv.Atoi(s); err == nil && v > 0 {
+			return v
+		}
+	}
+	return 2048
+}
+
+// rssMB is the resident set size of this process in MiB (0 when /proc is not readable).
+func rssMB() int {
+	b, err := os.ReadFile("/proc/self/statm")
+	if err != nil {
+		return 0
+	}
+	f := strings.Fields(string(b))
+	if len(f) < 2 {
+		return 0
+	}
+	pages, _ := strconv.Atoi(f[1])
+	return pages * os.Getpagesize() / (1 << 20)
 }
 
 func (r *Runner) runOne(c *Case, f func(c *Case)) {
